@@ -182,8 +182,11 @@ Print Assumptions C02_vacant_zero_rational.
 
 Theorem C02_peak_rational : forall (T : Qc) net ops st,
   simulate QcO KQc T net ops = Some st ->
-  peak st = fold_right (fun col acc => Q2Qc (Qmax (this acc) (this (fsum QcO col)))) (Q2Qc 0) (cols st).
-Proof. exact peak_Qc. Qed.
+  peak st = fold_right (fun col acc => Q2Qc (Qmax (this acc) (this (fsum QcO col)))) (Q2Qc 0) (cols st)
+  /\ (0 <= this (peak st))%Q
+  /\ (forall col, In col (rates_by_period st) -> (this (fsum QcO col) <= this (peak st))%Q)
+  /\ (peak st = Q2Qc 0 \/ exists col, In col (rates_by_period st) /\ peak st = fsum QcO col).
+Proof. exact (fun T net ops st H => conj (peak_Qc T net ops st H) (peak_char_Qc T net ops st H)). Qed.
 Print Assumptions C02_peak_rational.
 
 Theorem C02_total_rational : forall (T : Qc) net ops st,
